@@ -72,7 +72,7 @@ type SimContext struct {
 	// sequence of a call, in the middle of a built-in ...).
 	CancelAtWork int64
 	FiredInWork  bool
-	WorkAfter   int64 // work units after the cancellation
+	WorkAfter    int64 // work units after the cancellation
 	// (… of which inside the instruction that is running now)
 	workAfterInInstr int64
 	// WorkCapAfter > 0: the work unit that comes more than WorkCapAfter units
@@ -84,6 +84,12 @@ type SimContext struct {
 	// cancelled or not, is interrupted the same way (runaway protection for
 	// runs in which no cancellation is planned).
 	InstrWorkCap int64
+
+	// Contexts the library derived from this one (see simderive.go).
+	parent      *SimContext
+	children    []*SimContext
+	ownDeadline time.Time
+	hasDeadline bool
 
 	// Mutual-exclusion monitor (concurrency simulation only).
 	ownerTask, ownerOp int
@@ -125,6 +131,7 @@ func (c *SimContext) Rearm(cancelAt int64) {
 	c.Work, c.workInInstr, c.MaxInInstr, c.WorkAfter, c.FiredInWork, c.RunawayWork = 0, 0, 0, 0, false, false
 	c.workAfterInInstr = 0
 	c.CancelAt = cancelAt
+	c.children = nil
 	c.HitCap = false
 	c.Runaway = false
 }
@@ -197,6 +204,9 @@ func (c *SimContext) fire() {
 		c.err = context.Canceled
 	}
 	close(c.done)
+	for _, ch := range c.children {
+		ch.cancelDerived(c.err)
+	}
 	if c.OnFire != nil {
 		c.OnFire()
 	}
@@ -312,6 +322,20 @@ func (c *SimContext) tick() {
 //
 //go:norace
 func (c *SimContext) poll() {
+	if c.parent != nil {
+		// a derived context: the poll is the root's (its clock, its plan)
+		r := c.root()
+		r.Polls++
+		if r.fired {
+			r.PollsAfter++
+		} else if r.CancelAt == 0 {
+			r.fire()
+		}
+		if current() != r {
+			setCurrent(r)
+		}
+		return
+	}
 	c.Polls++
 	if c.fired {
 		c.PollsAfter++
@@ -374,6 +398,15 @@ func (c *SimContext) Err() error {
 
 // Deadline implements context.Context.
 func (c *SimContext) Deadline() (time.Time, bool) {
+	if c.parent != nil {
+		pd, pok := c.parent.Deadline()
+		switch {
+		case c.hasDeadline && (!pok || c.ownDeadline.Before(pd)):
+			return c.ownDeadline, true
+		default:
+			return pd, pok
+		}
+	}
 	if c.FarDeadline {
 		return simEpoch.Add(time.Hour), true
 	}
